@@ -40,7 +40,7 @@ var unitTrusted = []string{"go/ssa", "the seed table of checker/units.go (fields
 
 func init() {
 	register("C05", &propInfo{
-		Explanation: "UNIT: units/kinds dataflow over the transform code (transform.go, matrix.go, metaball.go, squeeze.go, render3d/transform.go; 2D and 3D): directions, normals and ray parameters are not pushed through point/length maps (Transform.Apply on a vector without the image-difference idiom; DistTransform.ApplyDistance on anything but a length); sums, comparisons, distances and stores into seeded fields are dimensionally consistent; all returns of a function agree on their dimension. ABSORB: no transformed bound is computed as x.Max(y.Min(x)). FIRSTITER: the first-corner initialisation of the bounds enumeration tests every loop variable of its nest. FRAME: in every transformed wrapper (methods of structs holding a Transform, closures capturing one) world-frame query values reach the wrapped object only through the inverse transform and forward maps are applied only to object-frame values.",
+		Explanation: "UNIT: units/kinds dataflow over the transform code (transform.go, matrix.go, metaball.go, squeeze.go, render3d/transform.go; 2D and 3D): directions, normals and ray parameters are not pushed through point/length maps (Transform.Apply on a vector without the image-difference idiom; DistTransform.ApplyDistance on anything but a length); sums, comparisons, distances and stores into seeded fields are dimensionally consistent; all returns of a function agree on their dimension. ABSORB: no transformed bound is computed as x.Max(y.Min(x)). FIRSTITER: the first-corner initialisation of the bounds enumeration tests every loop variable of its nest. SIGNMAP: an ApplyBounds that multiplies its corners by a factor of unknown sign orders the result with Min/Max, and an ApplyDistance that multiplies by such a factor uses its magnitude. FRAME: in every transformed wrapper (methods of structs holding a Transform, closures capturing one) world-frame query values reach the wrapped object only through the inverse transform and forward maps are applied only to object-frame values.",
 		Trusted:     unitTrusted,
 		Assumptions: []string{"model coordinates are lengths; a Transform value obtained from X.Inverse() is the inverse of X"},
 		Fixtures:    []string{"u", "g"},
@@ -54,8 +54,14 @@ func init() {
 			c.floor("ABSORB", 10)
 			c.runFirstIter("FIRSTITER", c.libPkgs()[:3], nil)
 			c.floor("FIRSTITER", 2)
+			c.runSignMap("SIGNMAP", append(c.libPkgs()[:3:3], c.fixturePkg("g")))
+			c.floor("SIGNMAP", 0)
 		},
 		SelfTest: []Mutation{
+			{Name: "mirrored uniform scale returns swapped corners", File: "model3d/transform.go",
+				Old: "\tmin, max = min.Scale(s.Scale), max.Scale(s.Scale)\n\t// Handle negative scales.\n\treturn min.Min(max), max.Max(min)", New: "\treturn min.Scale(s.Scale), max.Scale(s.Scale)", Rule: "SIGNMAP", Expect: "ApplyBounds"},
+			{Name: "mirrored uniform scale maps distances to negative lengths", File: "model2d/transform.go",
+				Old: "return d * math.Abs(s.Scale)", New: "return d * s.Scale * math.Abs(1)", Rule: "SIGNMAP", Expect: "ApplyDistance"},
 			{Name: "matrix bounds reset on every first-two-axes corner", File: "model3d/transform.go",
 				Old: "if i == 0 && j == 0 && k == 0 {", New: "if i == 0 && j == 0 {",
 				More: [][2]string{{"for k, z := range []float64{min.Z, max.Z} {\n\t\t\t\tc := m.Matrix.MulColumn", "for _, z := range []float64{min.Z, max.Z} {\n\t\t\t\tc := m.Matrix.MulColumn"}}, Rule: "FIRSTITER", Expect: "Matrix3Transform"},
